@@ -146,3 +146,10 @@ Proof.
   intros A Hx. unfold is_necessary. destruct (n_force_necessary x) eqn:Hf; [|by rewrite orb_false_r].
   specialize (A n x Hx Hf). by apply elem_of_nil in A.
 Qed.
+
+(* ---- the handler counter (debug builds, up to the first failing operation) *)
+From Incr.Proofs Require Import HandlerCount FrameHandlerCount.
+
+Lemma history_handler_count fuel max_height ops :
+  while_ok (run_history fuel max_height true ops) HCd.
+Proof. unfold run_history. apply run_handler_count. apply HCd_init. Qed.
